@@ -42,7 +42,7 @@ def by_product_jobs(tier):
         yield j
     seen = 0
     for j in c03.jobs('quick'):
-        if j['inputs'].startswith('D'):
+        if not isinstance(j['inputs'], str) or j['inputs'].startswith('D'):
             continue
         seen += 1
         if tier == 'quick' and seen % 7:
